@@ -86,6 +86,17 @@ def judge_layouts(case):
             exp = {'k': base.to_plain(L1[1]), 'q': 1}
             if base.typed(got) != base.typed(exp):
                 return dict(texts=texts, reason="'key: !include [..]' is not the merged content of the files placed under key", expected=repr(exp)[:300], got=repr(got)[:300])
+            # ... also where the key inherits an implicit delete flag: inside a !del mapping, as an element of a list
+            merged = base.to_plain(L1[1])
+            for what, text, exp2 in (("inside a '!del' mapping", 'k: !del {s: !include [' + ', '.join(names) + ']}\nq: 1\n', {'k': {'s': merged}, 'q': 1}),
+                                     ('as an element of a list', 'k: [!include [' + ', '.join(names) + '], 5]\nq: 1\n', {'k': [merged, 5], 'q': 1}),
+                                     ("two levels below a '!del' mapping", 'k: !del {s: {t: !include [' + ', '.join(names) + ']}}\n', {'k': {'s': {'t': merged}}})):
+                N2 = build([sb.write('d/nested2.yaml', text)])
+                if N2[0] != 'ok':
+                    return dict(texts=texts, reason=f"'key: !include [..]' {what} failed although the files merge", error=N2[0], message=N2[1][:200])
+                got2 = base.to_plain(N2[1])
+                if base.typed(got2) != base.typed(exp2):
+                    return dict(texts=texts, reason=f"'key: !include [..]' {what} is not the merged content of the files placed there", expected=repr(exp2)[:300], got=repr(got2)[:300])
         elif N[0] == 'ok':
             return dict(texts=texts, reason="'key: !include [..]' succeeded although merging the files fails", separate=L1[0])
     return None
